@@ -508,6 +508,11 @@ type plServer struct {
 	qBusy     *filtering.VerifInitTask
 	qRow      int // handler calls since the last step of the loop
 	srcURL    string
+	// ref is a server STARTED with the latest configuration (engines built
+	// synchronously from the same custom rules and enabled lists), refAt the
+	// number of changes it was built after.
+	ref   *plServer
+	refAt int
 }
 
 // listsClasses: where in a history of list changes the query about to be run sits.
@@ -2278,6 +2283,50 @@ func (ps *plServer) qLoop(t *testing.T, out *vfOut) {
 	}
 }
 
+// reference returns a server freshly started with the latest configuration
+// of ps: no web API, no queue, the engines built by initFiltering at start-up.
+func (ps *plServer) reference(t *testing.T) *plServer {
+	if ps.ref != nil && ps.refAt == ps.changes {
+		return ps.ref
+	}
+	c := *ps.cfg
+	c.Lists = nil
+	c.Custom = append([]*vfRule{}, ps.cfg.Custom...)
+	c.Block = append([]*vfRule{}, ps.cfg.Block...)
+	c.Allow = append([]*vfRule{}, ps.cfg.Allow...)
+	ps.ref, ps.refAt = plNewServer(t, &c), ps.changes
+	return ps.ref
+}
+
+// plDiffObs compares what two servers did with the same query: verdict,
+// upstream questions, response code and the set of answer records.
+func plDiffObs(a, b *plObs) string {
+	proj := func(o *plObs) string {
+		if o.Panic != nil {
+			return fmt.Sprintf("panic %v", o.Panic)
+		}
+		res := "no result"
+		if o.Result != nil {
+			res = fmt.Sprintf("%s filtered=%v service=%q rules=%d", o.Result.Reason, o.Result.IsFiltered, o.Result.ServiceName, len(o.Result.Rules))
+		}
+		ans := "no response"
+		if o.Res != nil {
+			var rrs []string
+			for _, rr := range o.Res.Answer {
+				rrs = append(rrs, rr.String())
+			}
+			sort.Strings(rrs)
+			ans = fmt.Sprintf("%s %q", dns.RcodeToString[o.Res.Rcode], rrs)
+		}
+		return fmt.Sprintf("%s; upstream asked %v; answer %s", res, o.Calls, ans)
+	}
+	pa, pb := proj(a), proj(b)
+	if pa == pb {
+		return ""
+	}
+	return fmt.Sprintf("this server: %s / a server started with the same configuration: %s", pa, pb)
+}
+
 // qAsk runs a query: judged as a case of its own (emit: the model of the
 // pipeline and the monitors, for the rule set of the latest configuration)
 // when the queue is served, part of the history in any case.
@@ -2395,6 +2444,12 @@ func plRunQueue(t *testing.T, out *vfOut, r *vfRand, ps *plServer, steps int, na
 		default:
 			ps.qAsk(out, genQ(vfMixCase(r, vfPick(r, names))+"."), emit)
 		}
+	}
+	// half of the histories end with one more handler call (so that every
+	// kind of call is regularly the last change), arriving in any phase
+	if r.Bool() {
+		handler()
+		out.Class("queue-handler-last")
 	}
 	if ps.qBusy != nil {
 		ps.qInstall(t, out)
